@@ -296,32 +296,94 @@ package keyed
 //@   loop 1 invariant keepkeys: forall key2: any {k.routines[key2]} :: in(k.routines, key2) == csold(in(k.routines, key2)) && k.routines[key2] == csold(k.routines[key2])
 //@   assert unlock 1: keepkeys[C06]: forall key2: any {k.routines[key2]} :: in(k.routines, key2) == csold(in(k.routines, key2)) && k.routines[key2] == csold(k.routines[key2])
 //
-// KeyedRefCount: lock discipline only (C13). refs is guarded by mtx; keyed, and a reference's rc and key, are
-// immutable; rel is an atomic flag. The reference-count clause of C06 is not decided (see /verif/DESIGN.md).
+// KeyedRefCount (C06, reference-count clause): a monitor over its own mtx. refs is guarded by mtx; keyed, and a
+// reference's rc and key, are immutable; rel is an atomic latch that no clause mentions (opt atomic-in-cs).
+//   KR1-KR4  every list in refs is non-empty, holds distinct non-nil references of this wrapper and of that key,
+//            and the lists of different keys do not share a backing array
+//   wanted   ghost: the keys whose most recent request to the inner Keyed (made under mtx) was SetKey, not RemoveKey
+//   KR5      wanted == dom(refs): a key has a reference list iff the wrapper last asked the inner Keyed to keep it
+//   KR6      the backing arrays of the lists exist (so a freshly grown list shares none of them)
+// Release / RemoveKey / AddKeyRef: the unlock assertions say what happens to the lists (exactly the released
+// reference leaves its list, positions of the others are kept or the last one moves into the gap; a reference
+// that is not in its list - released before, or dropped by RemoveKey - changes nothing; other keys untouched).
+// What is left to the reader: the inner Keyed is reachable only through the wrapper, whose other methods call
+// only key-set-preserving operations (proved for Keyed), so the inner key set follows `wanted` by Keyed's own
+// SetKey / RemoveKey contracts.
+//
+//@ ghostmap rwon: ref -> bool local
+//@ ghostmap rdid: ref -> bool local
+//@ ghostmap rex: ref -> bool local
+//@ ghostmap rdat: ref -> any local
 //
 //@ object KeyedRefCount
-//@   props C13
+//@   props C06 C13
 //@   lock mtx
 //@   guarded refs
 //@   immutable keyed
+//@   ghost wanted: set[any]
+//@   inv KR0[C06]: this.refs != nil && this.keyed != nil
+//@   inv KR1[C06]: forall key: any {this.refs[key]} :: in(this.refs, key) ==> len(this.refs[key]) > 0
+//@   inv KR2[C06]: forall key: any, j: int {this.refs[key][j]} :: in(this.refs, key) && 0 <= j && j < len(this.refs[key]) ==> this.refs[key][j] != nil && this.refs[key][j].rc == this && this.refs[key][j].key == key
+//@   inv KR3[C06]: forall key: any, i: int, j: int {this.refs[key][i], this.refs[key][j]} :: in(this.refs, key) && 0 <= i && i < j && j < len(this.refs[key]) ==> this.refs[key][i] != this.refs[key][j]
+//@   inv KR4[C06]: forall k1: any, k2: any {this.refs[k1], this.refs[k2]} :: in(this.refs, k1) && in(this.refs, k2) && k1 != k2 ==> arr(this.refs[k1]) != arr(this.refs[k2])
+//@   inv KR5[C06]: forall key: any {in(this.refs, key)} :: in(this.wanted, key) == in(this.refs, key)
+//@   inv KR6[C06]: forall key: any {this.refs[key]} :: in(this.refs, key) ==> allocated(arr(this.refs[key]))
 //
 //@ object KeyedRef
-//@   props C13
+//@   props C06 C13
 //@   immutable rc, key
 //@   atomic rel
 //
 //@ func (*KeyedRef).Release
-//@   props C13
+//@   props C06 C13
 //@   opt frame = skip
 //@   opt nil-receiver = ok
+//@   opt atomic-in-cs = rel
+//@   opt keep-held = KeyedRefCount
 //@   requires k == nil || (k.rc != nil && k.rc.keyed != nil)
+//@   ghost entry: rwon(k) := false
+//@   ghost entry: rdid(k) := false
+//@   ghost atomic 1: rwon(k) := !ret
+//@   ghost unlock 1: rdid(k) := true
+//@   ensures firstruns[C06]: k != nil && rwon(k) ==> rdid(k)
+//@   loop 1 invariant idx: 0 <= i
+//@   loop 1 invariant inv: ginvs() && objinv(k.rc)
+//@   loop 1 invariant notfound: forall j: int {refs[j]} :: 0 <= j && j < i ==> refs[j] != k
+//@   loop 1 invariant same: (csold(in(k.rc.refs, k.key)) ==> refs == csold(k.rc.refs[k.key])) && (!csold(in(k.rc.refs, k.key)) ==> len(refs) == 0) && k.rc.wanted == csold(k.rc.wanted)
+//@   loop 1 invariant samemap: forall key2: any {k.rc.refs[key2]} :: in(k.rc.refs, key2) == csold(in(k.rc.refs, key2)) && k.rc.refs[key2] == csold(k.rc.refs[key2])
+//@   loop 1 invariant sameelems: forall key2: any, j: int {k.rc.refs[key2][j]} :: in(k.rc.refs, key2) && 0 <= j && j < len(k.rc.refs[key2]) ==> k.rc.refs[key2][j] == csold(k.rc.refs[key2][j])
+//@   assert call RemoveKey: inner[C06]: arg0 == k.rc.keyed && arg1 == k.key && !in(k.rc.refs, k.key)
+//@   ghost aftercall RemoveKey: k.rc.wanted := del(k.rc.wanted, k.key)
+//@   assert unlock 1: gone[C06]: forall j: int {k.rc.refs[k.key][j]} :: in(k.rc.refs, k.key) && 0 <= j && j < len(k.rc.refs[k.key]) ==> k.rc.refs[k.key][j] != k
+//@   assert unlock 1: rest[C06]: forall j: int {k.rc.refs[k.key][j]} :: in(k.rc.refs, k.key) && 0 <= j && j < len(k.rc.refs[k.key]) ==> csold(in(k.rc.refs, k.key)) && j < csold(len(k.rc.refs[k.key])) && (k.rc.refs[k.key][j] == csold(k.rc.refs[k.key][j]) || k.rc.refs[k.key][j] == csold(k.rc.refs[k.key][len(k.rc.refs[k.key]) - 1]))
+//@   assert unlock 1: count[C06]: forall j: int {csold(k.rc.refs[k.key][j])} :: csold(in(k.rc.refs, k.key)) && 0 <= j && j < csold(len(k.rc.refs[k.key])) && csold(k.rc.refs[k.key][j]) == k ==> (in(k.rc.refs, k.key) && len(k.rc.refs[k.key]) == csold(len(k.rc.refs[k.key])) - 1) || (!in(k.rc.refs, k.key) && csold(len(k.rc.refs[k.key])) == 1)
+//@   assert unlock 1: absent[C06]: (!csold(in(k.rc.refs, k.key)) || (forall j: int {csold(k.rc.refs[k.key][j])} :: 0 <= j && j < csold(len(k.rc.refs[k.key])) ==> csold(k.rc.refs[k.key][j]) != k)) ==> in(k.rc.refs, k.key) == csold(in(k.rc.refs, k.key)) && k.rc.refs[k.key] == csold(k.rc.refs[k.key]) && k.rc.wanted == csold(k.rc.wanted) && (forall j: int {k.rc.refs[k.key][j]} :: 0 <= j && j < len(k.rc.refs[k.key]) ==> k.rc.refs[k.key][j] == csold(k.rc.refs[k.key][j]))
+//@   assert unlock 1: others[C06]: forall key2: any {k.rc.refs[key2]} :: key2 != k.key ==> in(k.rc.refs, key2) == csold(in(k.rc.refs, key2)) && k.rc.refs[key2] == csold(k.rc.refs[key2]) && (forall j: int {k.rc.refs[key2][j]} :: in(k.rc.refs, key2) && 0 <= j && j < len(k.rc.refs[key2]) ==> k.rc.refs[key2][j] == csold(k.rc.refs[key2][j]))
 //
 //@ func (*KeyedRefCount).RemoveKey
-//@   props C13
+//@   props C06 C13
 //@   opt frame = skip
+//@   opt atomic-in-cs = rel
+//@   opt keep-held = KeyedRefCount
 //@   requires k != nil && k.keyed != nil
+//@   loop 1 invariant same: k.wanted == csold(k.wanted)
+//@   assert call RemoveKey: inner[C06]: arg0 == k.keyed && arg1 == key && !in(k.refs, key)
+//@   ghost aftercall RemoveKey: k.wanted := del(k.wanted, key)
+//@   ghost aftercall RemoveKey: rex(k) := ret
+//@   assert unlock 1: dropped[C06]: !in(k.refs, key) && !in(k.wanted, key)
+//@   assert unlock 1: passthrough[C06]: result == rex(k)
+//@   assert unlock 1: others[C06]: forall key2: any {k.refs[key2]} :: key2 != key ==> in(k.refs, key2) == csold(in(k.refs, key2)) && k.refs[key2] == csold(k.refs[key2]) && (forall j: int {k.refs[key2][j]} :: in(k.refs, key2) && 0 <= j && j < len(k.refs[key2]) ==> k.refs[key2][j] == csold(k.refs[key2][j]))
 //
 //@ func (*KeyedRefCount).AddKeyRef
-//@   props C13
+//@   props C06 C13
 //@   opt frame = skip
+//@   opt keep-held = KeyedRefCount
 //@   requires k != nil && k.keyed != nil
+//@   assert call SetKey: inner[C06]: arg0 == k.keyed && arg1 == key && arg2
+//@   ghost aftercall SetKey: k.wanted := add(k.wanted, key)
+//@   ghost aftercall SetKey: rex(k) := ret1
+//@   ghost aftercall SetKey: rdat(k) := ret0
+//@   assert unlock 1: added[C06]: in(k.refs, key) && in(k.wanted, key) && len(k.refs[key]) == ite(csold(in(k.refs, key)), csold(len(k.refs[key])), 0) + 1 && k.refs[key][len(k.refs[key]) - 1] == nref && nref != nil && nref.rc == k && nref.key == key
+//@   assert unlock 1: kept[C06]: forall j: int {k.refs[key][j]} :: csold(in(k.refs, key)) && 0 <= j && j < csold(len(k.refs[key])) ==> k.refs[key][j] == csold(k.refs[key][j])
+//@   assert unlock 1: others[C06]: forall key2: any {k.refs[key2]} :: key2 != key ==> in(k.refs, key2) == csold(in(k.refs, key2)) && k.refs[key2] == csold(k.refs[key2]) && (forall j: int {k.refs[key2][j]} :: in(k.refs, key2) && 0 <= j && j < len(k.refs[key2]) ==> k.refs[key2][j] == csold(k.refs[key2][j]))
+//@   ensures results[C06]: result0 == nref && result0 != nil && result2 == rex(k) && result1 == rdat(k)
